@@ -31,10 +31,21 @@
 (define-fun coveredU ((r Scp) (s Scp) (u Str)) Bool
   (forall ((n Str)) (! (=> (and (shas s n) (not (= n u))) (and (shas r n) (sameq (sget r n) (sget s n))))
                        :pattern ((shas s n)))))
-; matchedU(p, l, v, r, u): pattern p matched value v under local scope l (in some context) and scope r
-; carries its bindings
-(define-fun matchedU ((p Val) (l Scp) (v Val) (r Scp) (u Str)) Bool
-  (exists ((c Val)) (! (and (bindok p c l v) (coveredU r (bindsc p c l v) u)) :pattern ((bindok p c l v)))))
+; ext(r, s, u): r extends s = coveredU(r, s, u). DEFINITION (unfolds wherever an ext term occurs).
+(declare-fun ext (Scp Scp Str) Bool)
+(assert (! (forall ((r Scp) (s Scp) (u Str)) (! (= (ext r s u) (coveredU r s u)) :pattern ((ext r s u)))) :named def.ext))
+; matchedP(p, l, v, r, u): pattern p matched value v under local scope l (in SOME context c: bindok p c l v)
+; and scope r extends the bindings produced (ext r (bindsc p c l v) u). Kept opaque in proofs about loops over
+; items; the only facts used are how it is established (intro) and that it survives extending r (mono).
+; Both follow from the reading  matchedP p l v r u  :=  exists c. bindok p c l v /\ ext r (bindsc p c l v) u
+; (mono: by transitivity of ext, lemma ext_trans below, which rests on symmetry/transitivity of eq).
+(declare-fun matchedP (Val Scp Val Scp Str) Bool)
+(assert (forall ((p Val) (c Val) (l Scp) (v Val) (r Scp) (u Str))
+  (! (=> (and (bindok p c l v) (ext r (bindsc p c l v) u)) (matchedP p l v r u))
+     :pattern ((bindok p c l v) (ext r (bindsc p c l v) u)))))
+(assert (forall ((p Val) (l Scp) (v Val) (r Scp) (r2 Scp) (u Str))
+  (! (=> (and (matchedP p l v r u) (ext r2 r u)) (matchedP p l v r2 u))
+     :pattern ((matchedP p l v r u) (ext r2 r u)))))
 ; evunder(x, e): expression x is e or a sub-expression evaluated in the course of evaluating e
 (declare-fun subexpr (Val Val) Bool)
 (define-fun evunder ((x Val) (e Val)) Bool (or (= x e) (subexpr x e)))
